@@ -54,6 +54,10 @@ def facts_dir(config, repo=None):
     d = os.path.join(CACHE, key, config)
     ok = os.path.join(d, "OK")
     if os.path.isfile(ok):
+        try:
+            os.utime(os.path.join(CACHE, key))   # in use: keep it young for _evict (concurrent runs share the cache)
+        except OSError:
+            pass
         return d, True, nfiles
     os.makedirs(os.path.join(CACHE, key), exist_ok=True)
     lock = open(os.path.join(CACHE, key, f".lock-{config}"), "w")
@@ -88,8 +92,10 @@ def _evict(keep_key, keep=12):
     try:
         ents = [e for e in os.listdir(CACHE) if os.path.isdir(os.path.join(CACHE, e))]
         ents.sort(key=lambda e: os.path.getmtime(os.path.join(CACHE, e)), reverse=True)
+        now = time.time()
         for e in ents[keep:]:
-            if e != keep_key:
+            # never an entry used within the last hour: another check may be reading its fact files right now
+            if e != keep_key and now - os.path.getmtime(os.path.join(CACHE, e)) > 3600:
                 shutil.rmtree(os.path.join(CACHE, e), ignore_errors=True)
     except OSError:
         pass
